@@ -29,7 +29,7 @@ ASSUMPTIONS = [
     "reading chosen: scatter=False always uses beamline(False)+kinematic('tof') whatever the origin",
     'value tolerance 1e-9 relative (fingerprints differ by >= 3e-2)',
 ]
-REQUIRED_CLASSES = ['precision_float32', 'precision_float64', 'precision_int64', 'value', 'runtime_error', 'mode_ambiguous', 'direct_inelastic', 'indirect_inelastic', 'supplied_precedence', 'nan_result']
+REQUIRED_CLASSES = ['aligned_geometry_value', 'precision_float32', 'precision_float64', 'precision_int64', 'value', 'runtime_error', 'mode_ambiguous', 'direct_inelastic', 'indirect_inelastic', 'supplied_precedence', 'nan_result']
 BOUND = {
     'quick': '4 origins x 13 targets x 2 scatter x 2048 subsets, DataArray',
     'thorough': '4 origins x 19 targets x 2 scatter x 2048 subsets x {DataArray, Dataset}, plus origin-coordinate-absent bit for origin tof',
@@ -180,6 +180,11 @@ def cases(tier):
             for order in (('float32', 'float64'), ('float64', 'float32'), ('int64', 'float64')):
                 for edt in ('float64', 'float32'):
                     out.append({'kind': 'precision', 'origin': origin, 'target': target, 'order': list(order), 'energy_dtype': edt})
+    # axis-aligned geometry family: incident beam exactly along -z / +z / +x (special directions of the beamline kernels)
+    for origin in ('tof', 'wavelength'):
+        for target in ('two_theta', 'dspacing', 'Q', 'Ltotal', 'L1', 'incident_beam'):
+            for axis in ('-z', '+z', '+x'):
+                out.append({'kind': 'aligned', 'origin': origin, 'target': target, 'axis': axis})
     if tier == 'thorough':
         for target in TARGETS:
             if target == 'tof':
@@ -223,6 +228,10 @@ def _squeeze_expected(exp, vector):
         lead = [s for s in e.shape[:-1] if s != 1]
         return e.reshape((*lead, 3))
     return np.squeeze(e)
+
+
+def _bogus_node(**kwargs):
+    raise AssertionError('a node of a graph that the caller customised was used by a later conversion')
 
 
 def _run_precision(case, rec):
@@ -289,9 +298,55 @@ def _run_precision(case, rec):
                 rec.viol(site, 'wrong_value_precision_history', f'{dtype} conversion (order {case["order"]}): got {got.ravel()[:3]}, formulas give {e.ravel()[:3]} (max rel diff {rel:.3g}, tolerance {rtol:g})', **sub)
 
 
+def _run_aligned(case, rec):
+    origin, target, axis = case['origin'], case['target'], case['axis']
+    src = {'-z': [0.0, 0.0, 10.0], '+z': [0.0, 0.0, -10.0], '+x': [-10.0, 0.0, 0.0]}[axis]
+    saved = {k: _V[k] for k in ('source_position', 'sample_position')}
+    _V['source_position'] = np.array(src)
+    _V['sample_position'] = np.array([0.0, 0.0, 0.0])
+    _VARS.clear()
+    try:
+        for present in (['position', 'source_position', 'sample_position'], ['position', 'source_position', 'sample_position', 'L2'], ['scattered_beam', 'source_position', 'sample_position']):
+            rec.states += 1
+            rec.transitions += 1
+            data = _make(origin, present, 'DataArray', True, False)
+            have = set(present) | {origin}
+            mode = dv.energy_mode(origin, target, have)
+            graph = dv.rules(origin, target, True, mode)
+            want_val = dv.derivable(graph, target, have)
+            sub = {'present': present, 'axis': axis}
+            try:
+                res = scn.convert(data, origin=origin, target=target, scatter=True)
+                outcome = 'value'
+            except RuntimeError as e:
+                outcome, res = 'runtime_error', e
+            rec.evals += 1
+            rec.validated += 1
+            if want_val != (outcome == 'value'):
+                rec.viol('core.convert', 'refused_derivable' if want_val else 'answered_underivable', f'axis-aligned geometry {axis}: model derivable={want_val}, convert -> {outcome}', **sub)
+                continue
+            if outcome != 'value':
+                continue
+            rec.cls('aligned_geometry_value')
+            rec.nontrivial += 1
+            envv = {n: _V[n] for n in have if n in _V}
+            exp = _expected(graph, target, envv, set())
+            if isinstance(exp, tuple):
+                exp = exp[1]
+            got = _np_result(res.coords[target], target)
+            e = _squeeze_expected(exp, target == 'incident_beam')
+            if got.shape != e.shape or not np.allclose(got, e, rtol=1e-9, atol=0.0, equal_nan=True):
+                rec.viol('core.convert', 'wrong_value_aligned_geometry', f'incident beam along {axis}: got {got.ravel()[:4]}, documented formulas give {e.ravel()[:4]}', **sub)
+    finally:
+        _V.update(saved)
+        _VARS.clear()
+
+
 def run_case(case, rec):
     if case.get('kind') == 'precision':
         return _run_precision(case, rec)
+    if case.get('kind') == 'aligned':
+        return _run_aligned(case, rec)
     origin, target, scatter = case['origin'], case['target'], case['scatter']
     cont, origin_present = case['container'], case['origin_present']
     aux = target in TARGETS_EXTRA
@@ -410,6 +465,11 @@ def run_case(case, rec):
         elif vout == 'value' and not sc.identical(via.coords[target], res.coords[target], equal_nan=True):
             rec.viol('core.deduce_conversion_graph', 'not_the_graph_used', 'transform_coords with the reported graph gives a different coordinate than convert', **sub)
         _ = gout
+        # the reported graph belongs to the caller: customising or emptying it may not influence any later conversion
+        # (every following configuration of this case is judged against the model as usual)
+        for k in list(g)[::2]:
+            g[k] = _bogus_node
+        g.pop(next(iter(g)), None)
     # conversion_graph for explicit modes: structure equals the rule table (once per case with hi == 0)
     if case['hi'] == 0 and origin_present:
         for mode in ('elastic', 'direct_inelastic', 'indirect_inelastic'):
